@@ -731,6 +731,37 @@ func c02Follow(o *Obs, t *tree.Tree, doc, f string) {
 
 func c02CLI(c *Ctx, o *Obs, doc, f string) {
 	in := tmpFile(c, "c02.in", doc)
+	// a file whose name ends in .gz is decompressed by the readers: offer the raw bytes (not gzip at all),
+	// a proper gzip of the document, or a gzip cut short, under such a name
+	h := 0
+	for i := 0; i < len(doc) && i < 64; i++ {
+		h = h*31 + int(doc[i])
+	}
+	if h < 0 {
+		h = -h
+	}
+	if h%3 != 0 {
+		var zb bytes.Buffer
+		zw := gzip.NewWriter(&zb)
+		_, _ = zw.Write([]byte(doc))
+		_ = zw.Close()
+		content := []byte(doc)
+		kind := "raw bytes under a .gz name"
+		switch h % 3 {
+		case 1:
+			content, kind = zb.Bytes(), "gzip of the document"
+		case 2:
+			content, kind = zb.Bytes()[:(h/3)%(zb.Len()+1)], "gzip cut short"
+		}
+		in = filepath.Join(c.Tmp, "c02.in.gz")
+		if err := os.WriteFile(in, content, 0o644); err != nil {
+			panic(err)
+		}
+		o.Ev("cli_gz:"+kind, 1)
+		// the library entry point that opens files by name
+		o.Asserts++
+		guard02(o, "utils.ReadTree("+kind+")", f, doc, func() { _, _ = utils.ReadTree(in, c02FormatID[f]) })
+	}
 	// read + write back through the shipped binary (reading, traversal and writing are what C02 covers)
 	for _, args := range [][]string{{"reformat", "newick", "-i", in, "-f", f}, {"reformat", "nexus", "-i", in, "-f", f}} {
 		res := runCLI(c, "", args...)
